@@ -528,6 +528,9 @@ class Interp(Engine):
             b = self.coerce(st, b, kb.inner, node)
             kb = b.kind
         num = lambda k: k is KInt or k is KBool or isinstance(k, KEnum)
+        if isinstance(ka, KSet) or isinstance(kb, KSet):
+            from . import lib
+            return lib.set_binop(self, st, op, a, b, node)
         if ka is KStr and kb is KStr and isinstance(op, ast.Add):
             out = SV(KStr, z3.Concat(a.term, b.term))
             h = self.reg.rt_helpers.get("str_concat_hook")
@@ -1144,7 +1147,7 @@ class Interp(Engine):
                 a0 = ctx.pre_heap.get(name)
                 if a0 is None or z3.eq(a0, arr) or name.startswith("G:"):
                     continue
-                conj.append(qforall([r], z3.Implies(z3.And(0 <= r, r < ctx.pre_nref), arr[r] == a0[r]), patterns=[arr[r]]))
+                conj.append(qforall([r], z3.Implies(z3.And(0 <= r, r < ctx.pre_nref), arr[r] == a0[r]), patterns=[arr[r], a0[r]]))
             return SV(KBool, z3.And(conj) if conj else z3.BoolVal(True))
         if nm == "nondet":
             return SV(KBool, st.fresh("nondet", z3.BoolSort()))
